@@ -63,12 +63,12 @@ DEALLOC = Lift(DQ, r"void dealloc_node\(node\* n\)", rules=[
 LOOP_GHOSTS = ("lin, lin_old, lin_new, g_lin_lr, g_lin_rl, g_lin_nr, g_lin_nl, g_lin_ldata, g_lin_rdata, g_steps, g_step_old, g_step_new, "
                "g_last_read, g_obs, g_inward_seen, g_validated, g_own")
 LOOP_POP = """
-__CPROVER_assigns(*r, self->anchor_, POOL_OBJECTS, g_retired, g_retired_node, %s)
-__CPROVER_loop_invariant(!lin && g_retired == 0 && g_own == NULL && S_OK(self->anchor_))
+__CPROVER_assigns(*r, g_q.anchor_, POOL_OBJECTS, g_retired, g_retired_node, %s)
+__CPROVER_loop_invariant(!lin && g_retired == 0 && g_own == NULL && S_OK(g_q.anchor_))
 """ % LOOP_GHOSTS
 LOOP_PUSH = """
-__CPROVER_assigns(self->anchor_, POOL_OBJECTS, %s)
-__CPROVER_loop_invariant(!lin && g_allocs == 1 && g_own == n && INPOOL(n) && n->data == data && S_OK(self->anchor_) && NOREF(self->anchor_, n))
+__CPROVER_assigns(g_q.anchor_, POOL_OBJECTS, %s)
+__CPROVER_loop_invariant(!lin && g_allocs == 1 && g_own == n && INPOOL(n) && n->data == data && S_OK(g_q.anchor_) && NOREF(g_q.anchor_, n))
 """ % LOOP_GHOSTS
 
 
